@@ -249,6 +249,8 @@ def check_C04(tier):
     engine_sim(c, "percentile-fine-long", "PercentileFineMenu", lines="LinesRich", maxlines=40, num=400 if t else 40, modes=("batch",), minlines=25)
     # HAVING and DISTINCT together judge every group on its own key and aggregates
     engine_run(c, "agg-distinct-having", "DistinctMenu", lines="Lines4", maxlines=3, maxfiles=1, tdefs=("plain",), modes=("batch",))
+    # an aggregate whose argument has no value on one row of its group: the statement fails, whatever the rows before it were
+    engine_run(c, "agg-errors", "ErrAggMenu", lines="LinesErrAgg", maxlines=3, maxfiles=1, tdefs=("plain",), modes=("batch", "incr"))
     engine_sim(c, "agg", "AggMenu", lines="LinesRich", maxlines=10, num=2500 if t else 200, modes=("batch",))
     engine_union(c, t)
     c.rule, c.assumptions, c.exhaustive = ENGINE_RULE, ENGINE_ASSUME, True
@@ -318,6 +320,8 @@ def check_C08(tier):
     engine_run(c, "distinct", "DistinctMenu", lines="Lines4", maxlines=5 if t else 4, maxfiles=1, modes=("batch", "incr"), tdefs=("plain",))
     # DISTINCT with a join: duplicate lines of the joined file still count for aggregates, equal pairs are removed for SELECT
     engine_run(c, "distinct-join", "JoinMenu", lines="LinesJ", maxlines=3 if t else 2, maxfiles=1, tdefs=("plain",))
+    # DISTINCT with a LIMIT beyond every size: the memory of seen rows is not sized by the number
+    engine_run(c, "limit-huge", "HugeLimitMenu", lines="Lines3", maxlines=3, maxfiles=1, modes=("batch", "incr"), tdefs=("plain",))
     engine_sim(c, "distinct", "DistinctMenu", lines="LinesRich", maxlines=12, num=2000 if t else 150)
     engine_union(c, t)
     c.rule, c.assumptions, c.exhaustive = ENGINE_RULE, ENGINE_ASSUME, True
@@ -714,6 +718,10 @@ def check_C15(tier):
     engine_run(c, "order-calendar", "CalAggMenu", lines="LinesCal", maxlines=3, maxfiles=1, tdefs=("plain",), invs=["TypeOK", "BatchRefinesSem", "PermLaw"], props=())
     # an expression under SUM / AVG / MIN / MAX that overflows on one row of a group: the same error for every order of the rows
     engine_run(c, "order-overflow", "OverflowAggMenu", lines="LinesOvf", maxlines=3, maxfiles=1, tdefs=("plain",), modes=("batch", "incr"), invs=["TypeOK", "BatchRefinesSem", "PermLaw"], props=())
+    # an argument without a value on one row of a group: the same error wherever the row stands (no aggregate may stop looking at its argument once it is "decided")
+    engine_run(c, "order-errors", "ErrAggMenu", lines="LinesErrAgg", maxlines=3, maxfiles=1, tdefs=("plain",), modes=("batch", "incr"), invs=["TypeOK", "BatchRefinesSem", "PermLaw"], props=())
+    # LIMIT next to HAVING / DISTINCT: which groups fill the limit does not depend on the order in which groups first appear
+    engine_run(c, "order-limit", "OrderLimitMenu", lines="Lines3", maxlines=4 if t else 3, maxfiles=1, tdefs=("plain",), invs=["TypeOK", "BatchRefinesSem", "PermLaw"], props=())
     # COUNT(DISTINCT) with up to 10 distinct values and recurrences: long random inputs
     engine_sim(c, "count-distinct", "DistinctCountMenu", lines="LinesDistinct", maxlines=16, num=4000 if t else 500, modes=("batch",), invs=["TypeOK", "BatchRefinesSem"])
     engine_sim(c, "count-distinct-wide", "DistinctCountMenu", lines="LinesDistinctWide", maxlines=48, num=1000 if t else 70, modes=("batch",), invs=["TypeOK", "BatchRefinesSem"], minlines=40)
@@ -746,6 +754,9 @@ def check_C09(tier):
     # aggregates over groups whose argument is NULL everywhere, extremes in running sums, HAVING on empty aggregates
     engine_run(c, "agg-null", "AggMenu", lines="LinesAgg", maxlines=2, maxfiles=1, tdefs=("plain",), invs=["TypeOK", "BatchRefinesSem"], props=())
     engine_run(c, "order-extremes", "OrderMenu", lines="LinesAgg", maxlines=2, maxfiles=1, tdefs=("plain",), invs=["TypeOK"], props=())
+    # a LIMIT beyond every size (i64::MAX, 2^62): the number sizes nothing; an aggregate argument that has no value on one row: an error, in every order
+    engine_run(c, "limit-huge", "HugeLimitMenu", lines="Lines3", maxlines=2, maxfiles=1, modes=("batch", "incr"), tdefs=("plain",), invs=["TypeOK", "BatchRefinesSem"], props=())
+    engine_run(c, "agg-errors", "ErrAggMenu", lines="LinesErrAgg", maxlines=2, maxfiles=1, modes=("batch", "incr"), tdefs=("plain",), invs=["TypeOK", "BatchRefinesSem"], props=())
     # printing non-finite REALs and 64-bit extremes in all formats
     r = tlc("MC_Printer", cfg_text(constants={"Dev": set(), "Formats": {q("text"), q("json"), q("csv")}, "ResultMenu": "<-OneCol", "MaxCalls": 1},
                                    invariants=["EveryRowOnceInOrder", "Emit"]), "printer-c09", workers=W)
